@@ -2015,6 +2015,9 @@ theorem run_gen : ∀ (evs : List Ev) (c : Cached), CacheInv c → Cached.run c 
       simp only [Cached.run, Cached.step, specRun]
       obtain ⟨e2, e3⟩ := getAges_spec c h
       rw [ih _ e3, e2]
+    | refused t =>
+      simp only [Cached.run, Cached.step, specRun]
+      exact ih c h
 
 /-! credibility scores -/
 theorem foldl_prod_nonzero : ∀ (l : List Rat) (acc : Rat),
@@ -2047,6 +2050,33 @@ open DendroModel DendroModel.Hier DendroModel.C05.Aux
 theorem freq_never_stale (useW : Bool) (evs : List Ev) :
     Cached.run { sd := { useWeights := useW } } evs = specRun { useWeights := useW } evs :=
   run_gen evs _ (by refine ⟨le_refl _, le_refl _, ?_, ?_⟩ <;> intro tbl h <;> cases h)
+
+/-- **Refused offers are invisible.**  A history in which some offers are refused (the library raises, the caller catches the
+    exception and carries on) answers every later query exactly as the history from which the refused offers are erased: the
+    refused trees are in no count, no total, no value list. -/
+theorem refused_offers_invisible (useW : Bool) (evs : List Ev) :
+    Cached.run { sd := { useWeights := useW } } evs
+      = Cached.run { sd := { useWeights := useW } } (evs.filter (fun e => match e with | .refused _ => false | _ => true)) := by
+  rw [freq_never_stale, freq_never_stale]
+  have : ∀ (evs : List Ev) (sd : SD),
+      specRun sd evs = specRun sd (evs.filter (fun e => match e with | .refused _ => false | _ => true)) := by
+    intro evs
+    induction evs with
+    | nil => intro sd; rfl
+    | cons e es ih =>
+      intro sd
+      cases e with
+      | add t => simp only [List.filter_cons, specRun]; exact ih _
+      | freq s => simp only [List.filter_cons, specRun]; exact congrArg _ (ih sd)
+      | summ s => simp only [List.filter_cons, specRun]; exact congrArg _ (ih sd)
+      | ages => simp only [List.filter_cons, specRun]; exact ih sd
+      | refused t => simp only [List.filter_cons, specRun]; exact ih sd
+  exact this evs _
+
+/-- a history with a refused offer between two accepted ones (hypothesis-free theorem; the concrete instance) -/
+example : Cached.run { sd := { useWeights := false } } [Ev.add exRec, Ev.refused exRec, Ev.add exRec, Ev.freq 6]
+    = Cached.run { sd := { useWeights := false } } [Ev.add exRec, Ev.add exRec, Ev.freq 6] :=
+  refused_offers_invisible false _
 
 /-- … in particular a frequency query after any history answers with the weighted fraction over all trees added so far -/
 theorem freq_never_stale_query (useW : Bool) (ts : List TreeRec) (s : Int) :
@@ -3506,11 +3536,11 @@ theorem kernel_weight (sd : SD) (t : TreeRec) : weightOf sd t = C05Kernels.weigh
 
 /-- `calc_normalization_weight` and the value `calc_freqs` stores for a split -/
 theorem kernel_freq (sd : SD) (s : Int) :
-    normW sd = C05Kernels.calc_normalization_weight sd.sumW sd.total
+    normW sd = C05Kernels.calc_normalization_weight sd.useWeights sd.sumW sd.total
     ∧ freq sd s = (match countOf sd.counts s with
         | none => 0
-        | some c => C05Kernels.calc_freqs_value sd.total c (C05Kernels.calc_normalization_weight sd.sumW sd.total)) := by
-  have h1 : normW sd = C05Kernels.calc_normalization_weight sd.sumW sd.total := by
+        | some c => C05Kernels.calc_freqs_value sd.total c (C05Kernels.calc_normalization_weight sd.useWeights sd.sumW sd.total)) := by
+  have h1 : normW sd = C05Kernels.calc_normalization_weight sd.useWeights sd.sumW sd.total := by
     unfold normW C05Kernels.calc_normalization_weight
     by_cases h : sd.sumW = 0 <;> simp [h]
   refine ⟨h1, ?_⟩
